@@ -56,7 +56,7 @@ func init() {
 		"(*sync.RWMutex).Unlock":  extNop,
 		"(*sync.RWMutex).RLock":   extNop,
 		"(*sync.RWMutex).RUnlock": extNop,
-		"(*sync.Pool).Put":        extNop,
+		"(*sync.Pool).Put":        extPoolPut,
 		"(*sync.Pool).Get":        extPoolGet,
 		"(*sync.Map).Load":          extSyncMapLoad,
 		"(*sync.Map).Store":         extSyncMapStore,
@@ -153,7 +153,35 @@ func extMutexUnlock(fr *frame, args []value) value {
 	return nil
 }
 
+func extPoolPut(fr *frame, args []value) value {
+	if it, ok := args[1].(iface); ok && it.t == nil {
+		return nil // Put(nil) is ignored
+	}
+	// only pools used by the code under test are modelled as pools; the
+	// standard library's own (regexp, fmt) always allocate
+	if callerIsRepo(fr) {
+		fr.i.path.poolPut(args[0].(*value), args[1])
+	}
+	return nil
+}
+
+// callerIsRepo: the external was called from code of the repository under
+// test (closures count as their enclosing function).
+func callerIsRepo(fr *frame) bool {
+	if fr == nil || fr.caller == nil || fr.caller.fn == nil {
+		return false
+	}
+	fn := fr.caller.fn
+	for fn.Parent() != nil {
+		fn = fn.Parent()
+	}
+	return fn.Pkg != nil && fn.Pkg.Pkg != nil && fr.i.ld.isRepo(fn.Pkg.Pkg.Path())
+}
+
 func extPoolGet(fr *frame, args []value) value {
+	if v, ok := fr.i.path.poolGet(args[0].(*value)); ok {
+		return v
+	}
 	p := (*args[0].(*value)).(structure)
 	nf := p[len(p)-1]
 	switch f := nf.(type) {
